@@ -578,12 +578,21 @@ def run(ctx):
     btext = head + "\n" + "\n".join(lines) + "\n" + G.FOOTER
     jobs.append((0, "boundaries", btext, len(head), bpop, [[k], [1, k // 2, k]], None))
     nfixed = len(jobs)
+    # the class `several-comments` (comments at several positions of one instance at once) is generated once the lazy loader sets an
+    # instance's comments the way the eager reader does (fixes/C10-8; recognised by the shape of getRealInstance)
+    try:
+        gri = open(os.path.join(B.REPO, "src/cllazyfile/sectionReader.cc"), encoding="latin-1").read()
+        c108 = "comment.clear();" not in gri and "header && !comment.empty()" in gri
+    except OSError:
+        c108 = False
+    classes = G.RISKY + (["several-comments"] * 3 if c108 else [])
+    ctx.cov["correspondence"]["several-comments class generated"] = c108
     for si, s in enumerate(schemas):
         for pi in range(npops):
             n = ctx.rng.randint(0, nmax) if pi % 5 else ctx.rng.randint(0, 4)
             pop = G.population(ctx.rng, s, n, cyc=ctx.rng.choice([0, 0.3, 0.6]))
             # with low probability one of the conforming shapes on which the two readers are known to have differed
-            cls = ctx.rng.choice(G.RISKY) if (pop and ctx.rng.random() < 0.08) else None
+            cls = ctx.rng.choice(classes) if (pop and ctx.rng.random() < 0.08) else None
             text, off = G.render_file(ctx.rng, s, pop, lay=(pi % 4 != 0), cmt=(pi % 3 != 0 and cls is None), risky=cls)
             jobs.append((si, f"s{si}p{pi}", text, off, pop, orders_for(ctx.rng, pop, norders), cls))
 
